@@ -204,6 +204,10 @@ impl Check for C11 {
                         inputs.push(format!("{}{}", a, b));
                     }
                 }
+                inputs.push(format!("{}{}11", l, u));
+                inputs.push(format!("11{}{}", l, u));
+                inputs.push(format!("{}{}{}{}", l, l, u, u));
+                inputs.push(format!("{}1{}1", l, u));
                 for text in &pats {
                     self.one(ctx, out, &scope_name, text, &inputs);
                 }
